@@ -14,11 +14,11 @@ RULE = (
     "partition arithmetic: every (n_thetas, n_chunks) with n<=N_EXH and n_chunks<=C(n,2)+3 enumerated completely plus "
     "sampled n<=400; assembly: for n<=9 every chunk computed by the real function with a recording metric, saved, "
     "loaded and concatenated in random permutations with repetition, compared with the single-chunk matrix and with "
-    "metric(pred_i,pred_j) recomputed by the harness; refusal: one pair left out. A case is one (n, n_chunks) grid "
+    "metric(pred_i,pred_j) recomputed by the harness; refusal: one pair left out; complete matrices of 129-300 samples through save/load and a two-chunk concat of 130 samples. A case is one (n, n_chunks) grid "
     "point or one assembly order; distinct = (n, n_chunks[, order]); non-trivial = at least one pair (n>=2)"
 )
 ASSUMPTIONS = ["thetas in the assembly workload are harness stubs with prescribed predictions plus real sparse-combo samples"]
-REQUIRED = {"partition_grid_points": {"quick": 500, "thorough": 1800}, "assemblies_checked": {"quick": 150, "thorough": 2000}, "refusals_checked": {"quick": 50, "thorough": 500}}
+REQUIRED = {"partition_grid_points": {"quick": 500, "thorough": 1800}, "assemblies_checked": {"quick": 150, "thorough": 2000}, "refusals_checked": {"quick": 50, "thorough": 500}, "large_matrix_roundtrips": {"quick": 8, "thorough": 80}}
 N_EXH = {"quick": 14, "thorough": 22}  # grid sizes 548 / 1900 points
 
 
@@ -202,6 +202,56 @@ def run_shard(rec, tier, seed, shard, nshards):
                     rec.violation("C07/refusal/wrong-exception", "incomplete matrix raised %r instead of ValueError" % (e,), w)
             for fn in files:
                 os.remove(fn)
+        large_matrices(rec, tier, rng, DC, tmp, shard)
+
+
+def large_matrices(rec, tier, rng, DC, tmp, shard):
+    sizes = [129, 200, 256, 257, 300] if tier == "thorough" else [int(rng.choice([129, 200, 256, 257, 300]))]
+    for n in sizes:
+        vals = rng.random((n, n))
+        m = DC.ChunkedDistanceMatrix(size=n)
+        for i in range(n):
+            for j in range(i):
+                m.add_value(i, j, float(vals[i, j]))
+        ref = np.tril(vals, -1)
+        ref = ref + ref.T
+        fn = os.path.join(tmp, "big_%d.h5" % n)
+        w = {"n": n, "large": True}
+        rec.case(("large", n), nontrivial=True)
+        try:
+            m.save(fn)
+            L = DC.ChunkedDistanceMatrix.load(fn)
+            dense = L.to_dense()
+        except Exception as e:
+            rec.violation("C07/assembly/concat-raises", "save/load/to_dense of a complete %d x %d matrix raised %r" % (n, n, e), w)
+            continue
+        rec.count("large_matrix_roundtrips")
+        rec.check(kit.bytes_equal(dense, ref), "C07/assembly/entry-misplaced-after-save-load", lambda: "a %d x %d matrix differs after save/load (%d entries differ)" % (n, n, int((dense != ref).sum())), w)
+        rec.check(bool(np.all(np.diag(dense) == 0)) and kit.bytes_equal(dense, dense.T.copy()), "C07/assembly/not-symmetric-zero-diagonal", "loaded %d x %d matrix not symmetric / zero diagonal" % (n, n), w)
+        os.remove(fn)
+    if tier == "thorough" or shard == 0:
+        # two chunks of a 130-sample matrix, saved, loaded, combined in both orders
+        n = 130
+        vals = rng.random((n, n))
+        ref = np.tril(vals, -1)
+        ref = ref + ref.T
+        files = []
+        for c in range(2):
+            ch = DC.ChunkedDistanceMatrix(size=n, n_chunks=2, chunk_index=c)
+            for (i, j) in DC.get_lower_triangular_indices_chunk(n, c, 2):
+                ch.add_value(i, j, float(vals[i, j]))
+            fn = os.path.join(tmp, "big2_%d.h5" % c)
+            ch.save(fn)
+            files.append(fn)
+        for order in ((0, 1), (1, 0)):
+            rec.case(("large-concat", n, order))
+            try:
+                dense = DC.ChunkedDistanceMatrix.concat([DC.ChunkedDistanceMatrix.load(files[c]) for c in order]).to_dense()
+            except Exception as e:
+                rec.violation("C07/assembly/concat-raises", "concat of two chunks of a %d-sample matrix raised %r" % (n, e), {"n": n})
+                continue
+            rec.count("large_matrix_roundtrips")
+            rec.check(kit.bytes_equal(dense, ref), "C07/assembly/order-dependent", "two chunks of a %d-sample matrix do not assemble to the reference (order %r)" % (n, order), {"n": n})
 
 
 def coverage_extra(tier, counters):
